@@ -340,4 +340,64 @@ def bits2pulsesRow (row : Nat → Nat) (bits : Int) : Nat :=
   let hi := lh.2
   if bits - (if lo = 0 then -1 else (row lo : Int)) ≤ (row hi : Int) - bits then lo else hi
 
+/-! ## `cache->caps` (rate.c:145-242, the second half of `compute_pulse_cache`)
+
+  C `int`/`opus_int32` arithmetic is modelled on unbounded `Int`: `<<` as multiplication by a power of two (also for the
+  one negative operand `(opus_uint32)(LM0+k)<<BITRES`, whose wrap-around and conversion back to `opus_int32` is the
+  signed product), `>>1` as floor division, `/` as truncating division (`Int.tdiv`). -/
+
+/-- The "cost of coding regular splits" loop (rate.c:191-210): `n` iterations left, `k` the loop index;
+    returns `(max_bits, N)`. -/
+def capSplitLoop (logNj LM0 : Int) : Nat → Nat → Int → Int → Int × Int
+  | 0, _, mb, N => (mb, N)
+  | n + 1, k, mb, N =>
+    let mb := mb * 2                                                        -- max_bits <<= 1;
+    let offset := (logNj + (LM0 + k) * 2 ^ Gen.CeltTables.BITRES) / 2 - Gen.CeltTables.QTHETA_OFFSET
+    let num := 459 * ((2 * N - 1) * offset + mb)
+    let den := (2 * N - 1) * 512 - 459
+    let qb := min (Int.tdiv (num + den / 2) den) 57
+    capSplitLoop logNj LM0 n (k + 1) (mb + qb) (N * 2)
+
+/-- One entry `cap[(i*2+C-1)*nbEBands+j]` before the final `(unsigned char)` store (rate.c:153-238). -/
+def capEntry (cindex : List Int) (cbits : List Nat) (eBands : List Nat) (logN : List Int) (nb i C j : Nat) : Int :=
+  open Gen.CeltTables in
+  let width : Nat := eBands.getD (j + 1) 0 - eBands.getD j 0
+  let logNj : Int := logN.getD j 0
+  let maxBits : Int :=
+    if width * 2 ^ i = 1 then ((C * (1 + MAX_FINE_BITS) : Nat) : Int) * 2 ^ BITRES
+    else
+      -- N0, LM0 (rate.c:175-188)
+      let N0 : Nat := if width > 2 then width / 2 else if width ≤ 1 then width * 2 ^ (min i 1) else width
+      let LM0 : Int := if width > 2 then -1 else if width ≤ 1 then ((min i 1 : Nat) : Int) else 0
+      -- pcache = bits + cindex[(LM0+1)*m->nbEBands+j]; max_bits = pcache[pcache[0]]+1;
+      let ci : Nat := (cindex.getD ((LM0 + 1).toNat * nb + j) 0).toNat
+      let mb0 : Int := (cbits.getD (ci + cbits.getD ci 0) 0 : Nat) + 1
+      let r := capSplitLoop logNj LM0 ((i : Int) - LM0).toNat 0 mb0 N0
+      let mb := r.1
+      let N := r.2
+      -- stereo split (rate.c:212-224)
+      let mb :=
+        if C = 2 then
+          let mb := mb * 2
+          let offset := (logNj + (i : Int) * 2 ^ BITRES) / 2 - (if N = 2 then (QTHETA_OFFSET_TWOPHASE : Int) else QTHETA_OFFSET)
+          let ndof := 2 * N - 1 - (if N = 2 then 1 else 0)
+          let num := (if N = 2 then 512 else 487) * (mb + ndof * offset)
+          let den := ndof * 512 - (if N = 2 then 512 else 487)
+          let qb := min (Int.tdiv (num + den / 2) den) (if N = 2 then 64 else 61)
+          mb + qb
+        else mb
+      -- fine bits (rate.c:225-238)
+      let ndof : Int := C * N + (if C = 2 ∧ N > 2 then 1 else 0)
+      let offset := (logNj + (i : Int) * 2 ^ BITRES) / 2 - FINE_OFFSET + (if N = 2 then 2 ^ BITRES / 4 else 0)
+      let num := mb + ndof * offset
+      let den := (ndof - 1) * 2 ^ BITRES
+      let qb := min (Int.tdiv (num + den / 2) den) MAX_FINE_BITS
+      mb + (C * qb) * 2 ^ BITRES
+  Int.tdiv (4 * maxBits) ((C * (width * 2 ^ i) : Nat) : Int) - 64
+
+/-- `cache->caps` in storage order: `i = 0..LM`, `C = 1..2`, `j = 0..nbEBands-1`. -/
+def computeCaps (cindex : List Int) (cbits : List Nat) (eBands : List Nat) (logN : List Int) (nb LM : Nat) : List Int :=
+  (List.range (LM + 1)).flatMap fun i => (List.range 2).flatMap fun c => (List.range nb).map fun j =>
+    capEntry cindex cbits eBands logN nb i (c + 1) j
+
 end Opus.Rate
